@@ -114,8 +114,7 @@ example : lllRetCheck 98 100 51 100 1 ⟨⟨0, 0, 0, 0⟩, ⟨3, 1, 4, 0⟩, ⟨
 
 `none` results of the models = the C code divides by zero / takes the root of a negative number (GMP aborts): this
 happens for collinear / zero input columns (`quat_dim2_lattice_short_basis` reaches `norm_b = 0`), documented in
-notes/C16.md.  NOT proved: termination of the Gauss loop within the model's fuel for independent columns and the
-final `|2<a,b>| ≤ N(b)` (both are evaluated by the harness oracle on every output). -/
+notes/C16.md.  For q > 0 and independent columns the Gauss loop is proved to return (`short_basis_terminates`). -/
 open SqiModel.Dim2 SqiProofs.LllDim2
 
 /-- `quat_dim2_lattice_short_basis`: the output columns are the input columns times an integer matrix of
@@ -126,6 +125,20 @@ theorem short_basis_keeps_lattice {q : Int} {m r : M2} (h : shortBasis q m = som
 /-- … and the first output column is not longer than the second. -/
 theorem short_basis_ordered {q : Int} {m r : M2} (h : shortBasis q m = some r) :
     normV q r.col0 ≤ normV q r.col1 := shortBasis_ordered h
+
+/-- … and the output `(b, a)` is Gauss-reduced: `|2<a,b>| ≤ N(b)` (q ≥ 0). -/
+theorem short_basis_gauss_reduced {q : Int} (hq : 0 ≤ q) {m r : M2} (h : shortBasis q m = some r) :
+    2 * bilV q r.col1 r.col0 ≤ normV q r.col0 ∧ -normV q r.col0 ≤ 2 * bilV q r.col1 r.col0 :=
+  shortBasis_gauss_reduced hq h
+
+/-- total correctness: for q > 0 and linearly independent input columns the routine returns (no division by zero,
+    the loop terminates: `norm_b` strictly decreases). -/
+theorem short_basis_terminates {q : Int} (hq : 0 < q) {m : M2} (hd : m.det ≠ 0) : (shortBasis q m).isSome = true :=
+  shortBasis_terminates hq hd
+
+/-- for collinear columns the C routine divides by zero (model: `none`; GMP raises SIGFPE — confirmed by the
+    harness): a = 2b. -/
+example : shortBasis 1 ⟨2, 1, 0, 0⟩ = none := by decide
 
 /-- `quat_dim2_lattice_closest_vector`: `target - target_minus_closest = basis · closest_coords_in_basis`. -/
 theorem closest_vector_in_lattice {q : Int} {rb : M2} {t : V2} {o : CvpOut} (h : closestVector q rb t = some o) :
